@@ -16,6 +16,11 @@ fn alphabet() -> Vec<RVal> {
         RVal::arr(vec![RVal::u(1)]),
         RVal::arr(vec![RVal::f(1.0)]),
         RVal::obj(vec![("a", RVal::u(1))]),
+        // different kinds, identical payload bytes: the string "P\u{1}" and the number 1 (50 01),
+        // the string "@\0\0\0" and the empty object (40 00 00 00)
+        RVal::s("P\u{1}"),
+        RVal::s("@\u{0}\u{0}\u{0}"),
+        RVal::obj(vec![]),
         // payloads that need the 2nd byte of the length field
         RVal::Str("L".repeat(300)),
         RVal::arr(vec![RVal::Str("M".repeat(256))]),
